@@ -56,7 +56,8 @@ def run_programs(fam, header, progs, cases, configs, workdir, model_exe, nshards
     exes = {}
     for (sh_, cfg, ids), (exe, log) in zip(jobmeta, built):
         if exe is None:
-            build_fail.append((sh_, cfg, log))
+            if not log.startswith("COMPILER-CRASH"):
+                build_fail.append((sh_, cfg, log))
         exes[(sh_, cfg)] = (exe, ids)
     for sh_, cs in sorted(by_shard.items()):
         lines = [fam + " " + " ".join(str(x) for x in toks) for (_, toks, _) in cs]
